@@ -39,6 +39,7 @@ pub fn gen(rng: &mut Rng, tier: Tier, idx: u64) -> Case {
         s.extend_from_slice(&rng.bytes(n));
         c.stream = Bs(s);
         let (script, tail) = gen_read_script(rng, 16, 100, &[]);
+        c.cancel = gen_cancel(rng, &script, 500);
         c.read_script = script;
         c.read_tail = tail;
         c.reader_style = rng.below(3) as u8;
@@ -54,12 +55,17 @@ pub fn gen(rng: &mut Rng, tier: Tier, idx: u64) -> Case {
             c.suffix = Bs(rng.bytes(n));
         }
         let (script, tail) = gen_read_script(rng, 8, 100, &[]);
+        c.cancel = gen_cancel(rng, &script, 500);
         c.read_script = script;
         c.read_tail = tail;
         c.reader_style = rng.below(3) as u8;
         return c;
     }
-    hostile_case(rng, tier, idx, "C06", "c06-agree", 40)
+    let mut c = hostile_case(rng, tier, idx, "C06", "c06-agree", 40);
+    // n[0]: byte position of one empty read (a read that completes without data although the
+    // stream goes on), or -1
+    c.n = vec![if rng.chance(1, 4) { rng.urange(0, 24) as i64 } else { -1 }];
+    c
 }
 
 pub fn run(c: &Case, trace: bool) -> RunOut {
@@ -76,7 +82,32 @@ fn run_g<C: Codec>(c: &Case, trace: bool) -> RunOut {
     let b = fe_block::<C>(&stream);
     out.evals += 1;
     let ar = run_a::<C>(&stream, &c.read_script, c.read_tail, &[], trace, &mut out);
-    let pr = run_p::<C>(&stream, &[], 0, &[], &[], false, trace, &mut out);
+    // the poll decoder gets the same delivery schedule as the async one, with the future dropped
+    // and re-created where the cancel script says so: the comparison must not depend on it
+    let pr = run_p::<C>(&stream, &c.read_script, c.read_tail, &c.cancel, &[], false, trace, &mut out);
+    // one empty read inside a frame that all front-ends accept: A and P must both take it for the
+    // end of the stream
+    if let (Some(&k), Fe::Ok { total: Some(t), .. }, Fe::Ok { .. }) = (c.n.first(), &pr.fe, &ar.fe) {
+        if k >= 0 && (k as usize) < *t {
+            let faults = [(k as usize, EMPTY_READ)];
+            let ae = run_a::<C>(&stream, &c.read_script, c.read_tail, &faults, trace, &mut out);
+            let pe = run_p::<C>(&stream, &c.read_script, c.read_tail, &c.cancel, &faults, false, trace, &mut out);
+            out.probe("empty-read-inside-frame");
+            for (name, fe) in [("A", &ae.fe), ("P", &pe.fe)] {
+                if !matches!(fe, Fe::Err { e, .. } if C::norm(e).eof) {
+                    out.violate(
+                        format!("C06:{f}:{ty}:empty-read:{name}={}", fe_class::<C>(fe)),
+                        format!(
+                            "an empty read at byte {k} of a {t}-byte frame: front-end {name} returns {} where the others report end of input\n  async: {}\n  poll:  {}",
+                            fe_long::<C>(fe),
+                            fe_long::<C>(&ae.fe),
+                            fe_long::<C>(&pe.fe)
+                        ),
+                    );
+                }
+            }
+        }
+    }
     let show = |b: &Fe<C::Packet, C::Err>, a: &Fe<C::Packet, C::Err>, p: &Fe<C::Packet, C::Err>| {
         format!(
             "  blocking: {}\n  async:    {}\n  poll:     {}\n  bytes: {:?}",
